@@ -55,7 +55,8 @@ def neighbor_block(n: dict) -> str:
     if apf:
         out.append('    add-path {')
         for f in apf:
-            out.append(f'        {FAM_TEXT[tuple(f)]};')
+            lim = (n.get('addpath_limits') or {}).get(FAM_TEXT[tuple(f)])
+            out.append(f'        {FAM_TEXT[tuple(f)]}{f" limit {lim}" if lim else ""};')
         out.append('    }')
     nh = n.get('nexthop')
     if nh:
